@@ -11,6 +11,7 @@ import (
 	corev1 "k8s.io/api/core/v1"
 	metav1 "k8s.io/apimachinery/pkg/apis/meta/v1"
 	"k8s.io/apimachinery/pkg/types"
+	"k8s.io/apimachinery/pkg/util/intstr"
 	"sigs.k8s.io/controller-runtime/pkg/reconcile"
 
 	datadoghqv1alpha1 "github.com/DataDog/extendeddaemonset/api/v1alpha1"
@@ -187,4 +188,164 @@ func ZZ_C02_rounds() {
 	nondet.Observe("rounds", rounds)
 	nondet.Reach("C02.rounds.full-rollout", rounds >= 4)
 	nondet.Reach("C02.rounds.old-replicaset-collected", left == 0)
+}
+
+// ZZ_C02_roundsCanary: the same bounded multi-round run from a canary in progress.  "The live
+// template is spec.template ... once the canary is promoted, and the previously active template
+// after a canary failure".  Start: active replica set foo-a (template A) serving every node,
+// spec.template = B with replica set foo-b as canary on node0 (its pod may or may not exist yet),
+// then one of: the user validates the canary (canary-valid annotation), the canary is marked
+// failed (Canary-Failed condition on foo-b, as auto-fail or kubectl-eds leave it), or the canary
+// duration simply elapsed.  Rounds of {ExtendedDaemonSet reconcile, every replica-set reconcile,
+// kubelet} must reach one Ready pod of the live template per node, nothing else, and then stay
+// quiet; a failed canary ends with spec.template restored to A.
+func ZZ_C02_roundsCanary() {
+	nNodes := 2
+	if nondet.Thorough() {
+		nNodes = 3
+	}
+	c := fakeapi.New()
+	ds := &datadoghqv1alpha1.ExtendedDaemonSet{ObjectMeta: metav1.ObjectMeta{Name: zzEDSName, Namespace: zzNS, UID: "uid-foo", Annotations: map[string]string{}}}
+	tpl := func(id string) corev1.PodTemplateSpec {
+		return corev1.PodTemplateSpec{ObjectMeta: metav1.ObjectMeta{Labels: map[string]string{"app": "agent"}},
+			Spec: corev1.PodSpec{Containers: []corev1.Container{{Name: "agent", Image: "agent:" + id}}}}
+	}
+	end := nondet.String("canaryEnds", "validated", "failed", "elapsed", "superseded")
+	specTpl := "B"
+	if end == "superseded" {
+		// "several template changes in a row": spec.template moves on to C while B is still the canary
+		specTpl = "C"
+	}
+	ds.Spec.Template = tpl(specTpl)
+	one := intstr.FromInt(1)
+	ds.Spec.Strategy.Canary = &datadoghqv1alpha1.ExtendedDaemonSetSpecStrategyCanary{Replicas: &one, Duration: &metav1.Duration{Duration: 3 * time.Minute},
+		NoRestartsDuration: &metav1.Duration{Duration: time.Minute}}
+	datadoghqv1alpha1.DefaultExtendedDaemonSetSpec(&ds.Spec, datadoghqv1alpha1.ExtendedDaemonSetSpecStrategyCanaryValidationModeAuto)
+	hash := func(id string) string {
+		t := tpl(id)
+		h, _ := comparison.GenerateMD5PodTemplateSpec(&t)
+		return h
+	}
+	mkRS := func(id, name string, age time.Duration) *datadoghqv1alpha1.ExtendedDaemonSetReplicaSet {
+		rs := zzRS(name, hash(id))
+		rs.Spec.Template = tpl(id)
+		rs.Annotations = map[string]string{datadoghqv1alpha1.MD5ExtendedDaemonSetAnnotationKey: hash(id)}
+		rs.CreationTimestamp = metav1.NewTime(nondet.Base().Add(-age))
+		return rs
+	}
+	canaryAge := time.Minute
+	if end == "elapsed" {
+		canaryAge = 4 * time.Minute
+	}
+	rsA, rsB := mkRS("A", "foo-a", 24*time.Hour), mkRS("B", "foo-b", canaryAge)
+	c.ERS = append(c.ERS, rsA, rsB)
+	ds.Status.ActiveReplicaSet = "foo-a"
+	ds.Status.Canary = &datadoghqv1alpha1.ExtendedDaemonSetStatusCanary{ReplicaSet: "foo-b", Nodes: []string{zzNodeName(0)}}
+	ds.Status.State = datadoghqv1alpha1.ExtendedDaemonSetStatusStateCanary
+	ds.Status.Desired = int32(nNodes)
+	switch end {
+	case "validated":
+		ds.Annotations[datadoghqv1alpha1.ExtendedDaemonSetCanaryValidAnnotationKey] = "foo-b"
+	case "failed":
+		at := metav1.NewTime(nondet.Base().Add(-5 * time.Second))
+		rsB.Status.Conditions = append(rsB.Status.Conditions, datadoghqv1alpha1.ExtendedDaemonSetReplicaSetCondition{Type: datadoghqv1alpha1.ConditionTypeCanaryFailed, Status: corev1.ConditionTrue, LastTransitionTime: at, LastUpdateTime: at})
+	}
+	for i := 0; i < nNodes; i++ {
+		c.Nodes = append(c.Nodes, &corev1.Node{ObjectMeta: metav1.ObjectMeta{Name: zzNodeName(i), Labels: map[string]string{}}})
+		if i == 0 {
+			// the canary node: its canary pod exists already, or the old pod is still there, or nothing
+			switch nondet.String("canaryNode.pod", "canary", "old", "none") {
+			case "canary":
+				p := zzPod("canary-pod", zzNodeName(0), "foo-b", hash("B"), 0, corev1.PodRunning, true, nondet.Base().Add(-time.Minute))
+				p.Labels[datadoghqv1alpha1.ExtendedDaemonSetReplicaSetCanaryLabelKey] = datadoghqv1alpha1.ExtendedDaemonSetReplicaSetCanaryLabelValue
+				c.Pods = append(c.Pods, p)
+			case "old":
+				c.Pods = append(c.Pods, zzPod("old-"+zzNodeName(0), zzNodeName(0), "foo-a", hash("A"), 0, corev1.PodRunning, true, nondet.Base().Add(-time.Hour)))
+			}
+			continue
+		}
+		c.Pods = append(c.Pods, zzPod("old-"+zzNodeName(i), zzNodeName(i), "foo-a", hash("A"), 0, corev1.PodRunning, true, nondet.Base().Add(-time.Hour)))
+	}
+	c.EDS = append(c.EDS, ds)
+
+	edsRec, _ := edsctrl.NewReconciler(edsctrl.ReconcilerOptions{DefaultValidationMode: datadoghqv1alpha1.ExtendedDaemonSetSpecStrategyCanaryValidationModeAuto}, c, c.Scheme(), logr.Logger{}, &fakeapi.Recorder{})
+	round := func() (podWrites int) {
+		from := len(c.Log)
+		_, err := edsRec.Reconcile(context.TODO(), reconcile.Request{NamespacedName: types.NamespacedName{Namespace: zzNS, Name: zzEDSName}})
+		nondet.Assert("C02.canary.eds-ok", err == nil)
+		names := []string{}
+		for _, rs := range c.ERS {
+			names = append(names, rs.Name)
+		}
+		for _, name := range names {
+			_, err := zzReconcile(zzReconciler(c, false), zzNS, name)
+			nondet.Assert("C02.canary.ers-ok", err == nil)
+		}
+		for _, e := range c.Log[from:] {
+			if e.Kind == "Pod" && (e.Verb == "create" || e.Verb == "delete") {
+				podWrites++
+			}
+		}
+		zzKubelet(c)
+		return podWrites
+	}
+	live := specTpl
+	if end == "failed" {
+		live = "A"
+	}
+	converged := func() bool {
+		if len(c.Pods) != nNodes {
+			return false
+		}
+		seen := map[string]bool{}
+		for _, p := range c.Pods {
+			if p.Annotations[datadoghqv1alpha1.MD5ExtendedDaemonSetAnnotationKey] != hash(live) || seen[p.Spec.NodeName] {
+				return false
+			}
+			seen[p.Spec.NodeName] = true
+		}
+		return true
+	}
+	// the canary of C lasts three minutes (three rounds) before the rolling update starts
+	bound := 2*nNodes + 10
+	rounds := 0
+	for rounds < bound && !converged() {
+		round()
+		rounds++
+	}
+	nondet.Assert("C02.canary.converges", converged())
+	w := round()
+	nondet.Assert("C02.canary.quiescent", w == 0 && converged())
+	w2 := round()
+	nondet.Assert("C02.canary.still-quiescent", w2 == 0 && converged())
+	final := c.EDS[0]
+	wantActive := "foo-b"
+	if end == "superseded" {
+		wantActive = ""
+		for _, rs := range c.ERS {
+			if rs.Spec.TemplateGeneration == hash("C") {
+				wantActive = rs.Name
+			}
+		}
+	}
+	if end == "failed" {
+		wantActive = "foo-a"
+		// "restores spec.template to the active replica set's template"
+		nondet.Assert("C02.canary.template-restored", len(final.Spec.Template.Spec.Containers) == 1 && final.Spec.Template.Spec.Containers[0].Image == "agent:A")
+	} else {
+		nondet.Assert("C02.canary.template-kept", final.Spec.Template.Spec.Containers[0].Image == "agent:"+specTpl)
+	}
+	nondet.Assert("C02.canary.status", final.Status.ActiveReplicaSet == wantActive && final.Status.Canary == nil &&
+		int(final.Status.Desired) == nNodes && int(final.Status.Ready) == nNodes && int(final.Status.UpToDate) == nNodes)
+	// no pod keeps the canary label in the end
+	for _, p := range c.Pods {
+		_, has := p.Labels[datadoghqv1alpha1.ExtendedDaemonSetReplicaSetCanaryLabelKey]
+		nondet.Assert("C02.canary.no-canary-label-left", !has)
+	}
+	nondet.Observe("active", final.Status.ActiveReplicaSet)
+	nondet.Observe("state", string(final.Status.State))
+	nondet.Observe("rounds", rounds)
+	nondet.Reach("C02.canary.rollback", end == "failed" && rounds >= 1)
+	nondet.Reach("C02.canary.promotion", end == "validated" && rounds >= 2)
+	nondet.Reach("C02.canary.second-canary-then-rollout", end == "superseded" && rounds >= 5)
 }
